@@ -113,6 +113,7 @@ def run(cx):
     other_loops(cx, cn)
     lexer_classes(cx)
     inheritance(cx)
+    end_of_file(cx)
     tables(cx, cn)
     absolute_names(cx)
 
@@ -347,6 +348,26 @@ def lexer_classes(cx):
 
 
 # ------------------------------------------------------------------------------------------------ inheritance
+def end_of_file(cx):
+    """S3: a file ($INCLUDEd or top level) that ends without a final newline still denotes its last record, and nothing of its line
+    state reaches the including file: when a lexer is exhausted and before it is popped, the line state is taken and reset to
+    StartLine (mem::replace) and a pending Record is inserted.  A flush moved behind the lexer loop loses / mangles the last record
+    of an included file and lets its half-parsed line swallow the parent's next line."""
+    f = cx.fn('C20.S3', Z + 'Parser::parse')
+    if not f:
+        return
+    pops = [s_ for s_ in cx.calls(f, r'Vec<T, A>::pop$|Vec::pop$') if re.fullmatch(r'Vec::pop\(arg1\.lexers\)', s_.term)]
+    rst = [s_ for s_ in cx.calls(f, r'mem::replace$') if re.search(r'^mem::replace\(.*,State::StartLine\)$', s_.term)]
+    cx.check('C20.S3', len(pops) == 1 and len(rst) >= 1, f.path, 'calls', 'lexer-pop-and-line-state-reset-present', f'pop={len(pops)} reset={len(rst)}')
+    if pops and rst:
+        cx.must_pass('C20.S3', f, pops, via_blocks={x.bb for x in rst}, what='line-state-reset-before-the-lexer-is-popped')
+        flush = [s_ for s_ in cx.calls(f, r'Context::insert$') if re.search(r'^Context::insert\(var\(\w+\),mem::replace\(.*,State::StartLine\)@Record\.0\)$', s_.term)]
+        cx.check('C20.S3', len(flush) == 1, f.path, 'calls', 'pending-record-of-the-ended-file-is-inserted', str(len(flush)))
+        for x in flush:
+            cx.check('C20.S3', cx.has_guard(x, r'^is\(mem::replace\(.*,State::StartLine\),Record\)$'), f.path, x.key(), 'flush-under-State::Record', x.term[:120], x.loc)
+            cx.check('C20.S3', pops[0].bb in cx.reachable_from(f, [x.bb]), f.path, x.key(), 'flush-precedes-the-pop', '', x.loc)
+
+
 def inheritance(cx):
     prog = cx.prog
     f = cx.fn('C20.S1', Z + 'Parser::parse')
